@@ -41,7 +41,7 @@ REQUIRED_COUNTERS = ["quiescent_checks", "failed_setups_closed", "closes_returne
 FAILS = [
     "refuse", "blackhole", "bad_sig", "bad_tag", "wrong_id", "missing_field", "wrong_state", "bad_key_len",
     "m2_err:7", "m2_err:6", "m2_err:2", "m4_err:2", "m4_err:6", "close_m2", "close_m4", "http_470", "http_400",
-    "garbage", "hang", "hang_m4", "sub_keyerror",
+    "garbage", "hang", "hang_m4", "sub_keyerror", "reset_m1",
 ]
 AUTH_END = {"m2_err:2", "m4_err:2"}
 
@@ -106,6 +106,14 @@ class Run:
                 causes.append(o.split(":")[0])
             self.violation("more-than-one-open-connection-after-" + causes[0], f"[{where}] accessory sees {len(opened)} open connections {[c.index for c in opened]} (older ones from outcomes {causes})")
             return
+        if not getattr(self, "closing_started", False):
+            # ground truth from the accessory side: a connection whose setup succeeded is ended by the accessory, by a request
+            # that failed on it, or by close() - never by the controller on its own
+            for c in acc.conns:
+                rec = self.log.activation_of_conn(c.index)
+                if c.secure and rec is not None and rec["ok"] and c.closed_at is not None and not c.closed_by_accessory and not getattr(c, "vf_request_failed", False):
+                    self.violation("connection-in-use-torn-down-by-controller", f"[{where}] connection {c.index} (attempt {rec['i']}: setup succeeded) was closed by the controller although nothing asked for it")
+                    return
         for c in opened:
             rec = self.log.activation_of_conn(c.index)
             if rec is not None and rec["t1"] is not None and not rec["ok"]:
@@ -143,6 +151,7 @@ class Run:
                 base = loop.iterations
 
                 def trigger():
+                    self.closing_started = True
                     close_box["task"] = asyncio.ensure_future(w.pairing.close())
 
                 loop.at_iteration[base + self.sweep_at] = trigger
@@ -168,6 +177,7 @@ class Run:
                     if self.sweep_base == "request-in-flight" and "req" not in close_box:
                         # a request the accessory never answers; keep ticking so the sweep covers the in-flight state
                         w.accessory.conns[-1].script.responder = lambda c, r: r["target"].startswith("/x/")
+                        w.accessory.conns[-1].vf_request_failed = True  # a request is left unanswered on it (sweep base)
                         close_box["req"] = asyncio.ensure_future(w.connection.get("/x/1"))
                         close_box["req"].add_done_callback(lambda t: t.cancelled() or t.exception())
                         t_end = loop.time() + 6
@@ -244,6 +254,7 @@ class Run:
         from vf import vloop
 
         w = self.w
+        self.closing_started = True
         before = len(w.accessory.conns)
         auth_ended = w.connection._connector is not None and w.connection._connector.done() and not w.connection.is_connected
         for n in range(2 if self.ending.endswith("twice") else 1):
